@@ -5,20 +5,27 @@ package main
 import (
 	"bytes"
 	"fmt"
+	"io"
+	"os"
+	"runtime/debug"
 	"strconv"
 	"strings"
+	"time"
 
+	"github.com/icon-project/goloop/block"
 	"github.com/icon-project/goloop/common/codec"
 	"github.com/icon-project/goloop/common/crypto"
 	"github.com/icon-project/goloop/common/db"
+	"github.com/icon-project/goloop/common/log"
 	"github.com/icon-project/goloop/common/wallet"
 	"github.com/icon-project/goloop/consensus"
 	"github.com/icon-project/goloop/module"
 	"github.com/icon-project/goloop/service/state"
+	"github.com/icon-project/goloop/test"
 )
 
 func init() {
-	Register(&Prop{ID: "C05", Gen: c05Gen, New: func() Runner { return &c05Runner{} }})
+	Register(&Prop{ID: "C05", Gen: c05Gen, New: c05New})
 }
 
 // ---------------------------------------------------------------- generator
@@ -33,6 +40,7 @@ func init() {
 func c05Gen(g *Gen) {
 	kinds := []string{"wb", "wr", "wp", "wa", "wt", "wh", "wy"}
 	for i := 0; i < g.N; i++ {
+		g.Emit("reset") // every op is its own case (the import cases are the ops between two resets)
 		if g.Intn(25) == 0 {
 			v := g.Intn(14)
 			g.Emit("enough %d %d", g.Pick(v*2/3, v*2/3+1, v*2/3+2, g.Intn(v+2), 0), v)
@@ -44,6 +52,10 @@ func c05Gen(g *Gen) {
 		}
 		if g.Intn(4) == 0 {
 			c05GenPB(g, n)
+			continue
+		}
+		if g.Intn(20) == 0 {
+			c05GenChain(g)
 			continue
 		}
 		mode := "std"
@@ -117,6 +129,86 @@ func c05Gen(g *Gen) {
 		g.Emit("vb %s %d %d %s", mode, n, g.Pick(0, 0, 1, 2, 7), strings.Join(items, " "))
 	}
 }
+
+// chain <A> <B> <C> <D> / imp <round> <items>: the import path on a real block manager.
+// A chain genesis(validators A) - b1(sets B) - b2(sets C) - b3(sets D) is built; every `imp` imports a
+// candidate block 4 on b3 whose votes (the certificate for b3) are the given items. The designated
+// voters of b3 are NextValidators(b2) = C. Items: k<key> right target, k<key>h signed height+1,
+// k<key>b signed the id of b2, k<key>r signed round+1; keys are a pool of 6 wallets.
+func c05GenChain(g *Gen) {
+	set := func() []int {
+		m := g.Pick(1, 2, 3, 3, 4, 4)
+		return g.R.Perm(6)[:m]
+	}
+	js := func(xs []int) string {
+		ss := make([]string, len(xs))
+		for i, x := range xs {
+			ss[i] = strconv.Itoa(x)
+		}
+		return strings.Join(ss, ".")
+	}
+	A, B, C, D := set(), set(), set(), set()
+	if g.Intn(3) == 0 { // same size, disjoint where possible: C and D differ completely
+		p := g.R.Perm(6)
+		m := g.Pick(1, 2, 3)
+		B, C = p[:m], p[m:2*m]
+	}
+	g.Emit("chain %s %s %s %s", js(A), js(B), js(C), js(D))
+	// NextValidators of heights 0..3 are A, A, B, C: designated voters of b3 = B, b3's own next validators = C
+	des, own, old := B, C, A
+	_ = D
+	full := func(xs []int, suffix string) []string {
+		var it []string
+		for _, k := range xs {
+			it = append(it, fmt.Sprintf("k%d%s", k, suffix))
+		}
+		return it
+	}
+	for j := 0; j < 10; j++ {
+		var items []string
+		switch g.Intn(10) {
+		case 0, 1: // the designated set, all of it or a quorum-sized part
+			items = full(des, "")
+			if g.Intn(2) == 0 {
+				q := len(des)*2/3 + g.Pick(0, 1)
+				if q < len(items) {
+					items = items[:q]
+				}
+			}
+		case 2: // the set the block itself designates
+			items = full(own, "")
+		case 3:
+			items = full(old, "")
+		case 4:
+			items = full(D, "")
+		case 5: // right signers, wrong target
+			items = full(des, g.c05Pick2("h", "b", "r"))
+		case 6: // one wrong-target item among right ones
+			items = full(des, "")
+			if len(items) > 0 {
+				items[g.Intn(len(items))] += g.c05Pick2("h", "b", "r")
+			}
+		case 7: // union of all sets (members outside C must make it fail)
+			seen := map[int]bool{}
+			for _, xs := range [][]int{des, own, old} {
+				for _, k := range xs {
+					if !seen[k] {
+						seen[k] = true
+						items = append(items, fmt.Sprintf("k%d", k))
+					}
+				}
+			}
+		case 8: // duplicate
+			items = full(des, "")
+			items = append(items, items[0])
+		case 9: // empty
+		}
+		g.R.Shuffle(len(items), func(a, b int) { items[a], items[b] = items[b], items[a] })
+		g.Emit("imp %d %s", g.Pick(0, 0, 1, 2), strings.Join(items, " "))
+	}
+}
+
+func (g *Gen) c05Pick2(xs ...string) string { return xs[g.R.Intn(len(xs))] }
 
 // pb <n> <round> <pseq> <pre> <items>: the fast-sync path (consensus.processBlock)
 //
@@ -273,7 +365,327 @@ type c05Block struct {
 func (b *c05Block) Height() int64 { return b.height }
 func (b *c05Block) ID() []byte    { return b.id }
 
-type c05Runner struct{ seq int }
+type c05Runner struct {
+	seq int
+	// import fixture
+	t     *c05T
+	nd    *test.Node
+	keys  []module.Wallet
+	sets  [][]int
+	nv    [][]int // NextValidators of heights 0..3 (key indices)
+	b2    module.Block
+	b3    module.Block
+	hf    *block.V2HeaderFormat
+	bf    *block.V2BodyFormat
+	count int
+}
+
+type c05T struct{ errs []string }
+
+func (t *c05T) Errorf(format string, args ...interface{}) {
+	t.errs = append(t.errs, fmt.Sprintf(format, args...))
+}
+func (t *c05T) Logf(format string, args ...any) {}
+
+var c05Current *c05Runner
+
+func c05New() Runner {
+	if c05Current != nil {
+		c05Current.close()
+	}
+	c05Current = &c05Runner{}
+	return c05Current
+}
+
+func (r *c05Runner) close() {
+	if r.nd != nil {
+		func() {
+			defer func() { recover() }()
+			r.nd.Close()
+		}()
+		r.nd = nil
+	}
+}
+
+func c05Quiet(f func()) {
+	old := os.Stderr
+	if dn, err := os.OpenFile(os.DevNull, os.O_WRONLY, 0); err == nil {
+		os.Stderr = dn
+		defer func() { os.Stderr = old; dn.Close() }()
+	}
+	f()
+}
+
+func c05ParseSet(s string) ([]int, bool) {
+	var out []int
+	for _, p := range strings.Split(s, ".") {
+		v, err := strconv.Atoi(p)
+		if err != nil || v < 0 || v > 5 {
+			return nil, false
+		}
+		out = append(out, v)
+	}
+	return out, len(out) > 0
+}
+
+// precommits of the given keys for (height, round, id) -> commit vote list
+func (r *c05Runner) cert(keys []int, height int64, round int32, id []byte, ts int64) module.CommitVoteSet {
+	msgs := make([]*consensus.VoteMessage, len(keys))
+	for i, k := range keys {
+		msgs[i] = consensus.NewVoteMessage(r.keys[k], consensus.VoteTypePrecommit, height, round, id, nil, ts, nil, nil, 0)
+	}
+	if len(msgs) == 0 {
+		return consensus.NewEmptyCommitVoteList()
+	}
+	return consensus.NewCommitVoteList(nil, msgs...)
+}
+
+func (r *c05Runner) addrs(set []int) []module.Address {
+	as := make([]module.Address, len(set))
+	for i, k := range set {
+		as[i] = r.keys[k].Address()
+	}
+	return as
+}
+
+var c05TxSerial int64
+
+// every transaction of every chain gets its own timestamp, so that no two have the same id
+func (r *c05Runner) setValidatorsTx(set []int) string {
+	c05TxSerial++
+	return r.nd.NewTx().SetValidators(r.addrs(set)...).SetTimestamp(c05TxSerial).String()
+}
+
+func (r *c05Runner) startChain(t []string) string {
+	defer func() {
+		if e := recover(); e != nil {
+			if os.Getenv("VERIF_DEBUG") != "" {
+				fmt.Fprintf(os.Stderr, "c05 chain: %v %v\n%s\n", e, r.t.errs, debug.Stack())
+			}
+			panic(e)
+		}
+	}()
+	r.close()
+	log.GlobalLogger().SetOutput(io.Discard)
+	log.GlobalLogger().SetLevel(log.PanicLevel)
+	r.sets = nil
+	for _, s := range t[1:5] {
+		set, ok := c05ParseSet(s)
+		if !ok {
+			return "bad-op"
+		}
+		r.sets = append(r.sets, set)
+	}
+	r.t = &c05T{}
+	r.keys = make([]module.Wallet, 6)
+	for i := range r.keys {
+		r.keys[i] = c05Wallet(20 + i)
+	}
+	var vs []string
+	for _, a := range r.addrs(r.sets[0]) {
+		vs = append(vs, fmt.Sprintf(`"%s"`, a))
+	}
+	gs := fmt.Sprintf(`{
+		"accounts": [
+			{"name": "treasury", "address": "hx1000000000000000000000000000000000000000", "balance": "0x0"},
+			{"name": "god", "address": "hx0000000000000000000000000000000000000000", "balance": "0x0"}
+		],
+		"message": "",
+		"nid": "0x1",
+		"chain": {"validatorList": [ %s ]}
+	}`, strings.Join(vs, ", "))
+	c05Quiet(func() {
+		r.nd = test.NewNode(r.t, test.UseGenesis(gs))
+		// A block carries the result of executing its parent's transactions, so the validator change
+		// requested in block k shows in NextValidators(block k+1): with the change to B sent in b1 and
+		// to C in b2: NextValidators(g) = NextValidators(b1) = A, NextValidators(b2) = B, NextValidators(b3) = C.
+		r.nd.ProposeFinalizeBlockWithTX(consensus.NewEmptyCommitVoteList(), r.setValidatorsTx(r.sets[1]))
+		b1 := r.nd.LastBlock
+		r.nd.ProposeFinalizeBlockWithTX(r.cert(r.sets[0], b1.Height(), 0, b1.ID(), b1.Timestamp()+1), r.setValidatorsTx(r.sets[2]))
+		r.b2 = r.nd.LastBlock
+		r.nd.ProposeFinalizeBlockWithTX(r.cert(r.sets[0], r.b2.Height(), 0, r.b2.ID(), r.b2.Timestamp()+1), r.setValidatorsTx(r.sets[3]))
+		r.b3 = r.nd.LastBlock
+	})
+	if len(r.t.errs) > 0 {
+		return "harness-error:chain:" + r.t.errs[0]
+	}
+	r.nv = [][]int{r.sets[0], r.sets[0], r.sets[1], r.sets[2]}
+	for h, set := range r.nv {
+		blk, err := r.nd.BM.GetBlockByHeight(int64(h))
+		if err != nil || blk.NextValidators().Len() != len(set) {
+			return fmt.Sprintf("harness-error:nextvalidators:%d", h)
+		}
+		for i, k := range set {
+			if v, ok := blk.NextValidators().Get(i); !ok || !v.Address().Equal(r.keys[k].Address()) {
+				return fmt.Sprintf("harness-error:nextvalidators:%d/%d", h, i)
+			}
+		}
+	}
+	// template of a valid child of b3 (certificate by the designated voters NextValidators(b2))
+	var bc module.BlockCandidate
+	var err, cbErr error
+	c05Quiet(func() {
+		bc, err, cbErr = test.ProposeBlock(r.nd.BM, r.b3.ID(), r.cert(r.nv[2], r.b3.Height(), 0, r.b3.ID(), r.b3.Timestamp()+1))
+	})
+	if err != nil || cbErr != nil {
+		return fmt.Sprintf("harness-error:template:%v %v", err, cbErr)
+	}
+	var hb, bb bytes.Buffer
+	if bc.MarshalHeader(&hb) != nil || bc.MarshalBody(&bb) != nil {
+		return "harness-error:marshal"
+	}
+	r.hf, r.bf = new(block.V2HeaderFormat), new(block.V2BodyFormat)
+	if _, err := codec.BC.UnmarshalFromBytes(hb.Bytes(), r.hf); err != nil {
+		return "harness-error:hf"
+	}
+	if _, err := codec.BC.UnmarshalFromBytes(bb.Bytes(), r.bf); err != nil {
+		return "harness-error:bf"
+	}
+	bc.Dispose()
+	return "ok"
+}
+
+func (r *c05Runner) stepImp(t []string, o *Oracle) string {
+	if r.nd == nil || r.hf == nil || len(t) < 2 {
+		return "bad-op"
+	}
+	round, err := strconv.Atoi(t[1])
+	if err != nil || round < 0 || round > 100 {
+		return "bad-op"
+	}
+	r.count++
+	ts := r.b3.Timestamp() + 10 + int64(r.count)
+	C := r.nv[2] // voters designated for b3: NextValidators(b2)
+	inSet := func(set []int, k int) bool {
+		for _, x := range set {
+			if x == k {
+				return true
+			}
+		}
+		return false
+	}
+	msgs := make([]*consensus.VoteMessage, 0, len(t)-2)
+	allRight, allInC, distinct := true, true, true
+	seen := map[int]bool{}
+	outsider := false // a correctly targeted signature of a validator of another block's set, not of C
+	for _, it := range t[2:] {
+		if len(it) < 2 || it[0] != 'k' {
+			return "bad-op"
+		}
+		suffix := ""
+		num := it[1:]
+		if c := it[len(it)-1]; c == 'h' || c == 'b' || c == 'r' {
+			suffix, num = string(c), it[1:len(it)-1]
+		}
+		k, err := strconv.Atoi(num)
+		if err != nil || k < 0 || k > 5 {
+			return "bad-op"
+		}
+		h, rd, id := r.b3.Height(), int32(round), r.b3.ID()
+		switch suffix {
+		case "h":
+			h++
+		case "b":
+			id = r.b2.ID()
+		case "r":
+			rd++
+		}
+		if suffix != "" {
+			allRight = false
+			o.Count("imp-item-wrong-target")
+		}
+		if !inSet(C, k) {
+			allInC = false
+			if suffix == "" && (inSet(r.nv[3], k) || inSet(r.nv[1], k) || inSet(r.sets[3], k)) {
+				outsider = true
+			}
+		}
+		if seen[k] {
+			distinct = false
+		}
+		seen[k] = true
+		msgs = append(msgs, consensus.NewVoteMessage(r.keys[k], consensus.VoteTypePrecommit, h, rd, id, nil, ts, nil, nil, 0))
+	}
+	// the list itself states `round`; wrong-target items were signed over something else
+	var votes module.CommitVoteSet
+	if len(msgs) == 0 {
+		cvl := consensus.NewEmptyCommitVoteList().(*consensus.CommitVoteList)
+		cvl.Round = int32(round)
+		votes = cvl
+	} else {
+		tss := make([]int64, len(msgs))
+		sigs := make([][]byte, len(msgs))
+		for i, m := range msgs {
+			tss[i] = ts
+			sigs[i] = consensus.VerifVoteSignatureBytes(m)
+		}
+		v, err := consensus.VerifRawCommitVoteList(int32(round), nil, tss, sigs)
+		if err != nil {
+			return "bad-op"
+		}
+		votes = v
+	}
+	h2, b2 := *r.hf, *r.bf
+	h2.Timestamp = votes.Timestamp()
+	if len(msgs) == 0 {
+		h2.Timestamp = ts
+	}
+	h2.VotesHash = votes.Hash()
+	b2.Votes = votes.Bytes()
+	bd, err := r.nd.BM.NewBlockDataFromReader(block.NewBlockReaderFromFormat(&h2, &b2))
+	if err != nil {
+		return "harness-error:decode"
+	}
+	type res struct {
+		bc  module.BlockCandidate
+		err error
+	}
+	ch := make(chan res, 1)
+	var ierr error
+	c05Quiet(func() {
+		_, ierr = r.nd.BM.ImportBlock(bd, 0, func(bc module.BlockCandidate, err error) { ch <- res{bc, err} })
+	})
+	verdict := "accept"
+	if ierr != nil {
+		msg := ierr.Error()
+		switch {
+		case strings.Contains(msg, "bad voter"), strings.Contains(msg, "bad signature"), strings.Contains(msg, "duplicated validator"),
+			strings.Contains(msg, "<= 2/3 of validators"), strings.Contains(msg, "voters for height 0"):
+			verdict = "reject:cert"
+		default:
+			verdict = "reject:other:" + strings.Join(strings.Fields(msg), "_")
+		}
+	} else {
+		select {
+		case x := <-ch:
+			if x.err != nil {
+				verdict = "reject:async:" + strings.Join(strings.Fields(x.err.Error()), "_")
+			} else if x.bc != nil {
+				x.bc.Dispose()
+			}
+		case <-time.After(30 * time.Second):
+			verdict = "harness-error:timeout"
+		}
+	}
+	o.Count("imp-" + strings.SplitN(verdict, ":", 3)[0])
+	m := len(msgs)
+	good := allRight && allInC && distinct && 3*m > 2*len(C)
+	if verdict == "accept" {
+		if outsider || !allInC {
+			o.Check(false, "c05-certificate-verified-against-wrong-validator-set",
+				"import accepted a certificate for block %d signed by %v; the voters designated by block %d are keys %v (block's own next validators %v)",
+				r.b3.Height(), t[2:], r.b2.Height(), C, r.nv[3])
+		} else {
+			o.Check(good, "c05-import-accepted-bad-certificate", "import accepted certificate %v (round %d) for designated voters %v", t[2:], round, C)
+		}
+	} else if good {
+		o.Check(false, "c05-import-rejected-valid-certificate", "%s for %v, designated voters %v", verdict, t[2:], C)
+	}
+	if outsider {
+		o.Count("imp-other-set-signer")
+	}
+	return verdict
+}
 
 func (b *c05Block) NTSHashEntryList() (module.NTSHashEntryList, error) {
 	return module.ZeroNTSHashEntryList{}, nil
@@ -468,6 +880,12 @@ func (r *c05Runner) Step(t []string, o *Oracle) string {
 	}
 	if len(t) == 6 && t[0] == "pb" {
 		return r.stepPB(t, o)
+	}
+	if len(t) == 5 && t[0] == "chain" {
+		return r.startChain(t)
+	}
+	if len(t) >= 2 && t[0] == "imp" {
+		return r.stepImp(t, o)
 	}
 	if len(t) < 4 || t[0] != "vb" {
 		return "bad-op"
